@@ -877,6 +877,8 @@ class Interp:
             return {"True": True, "False": False, "None": None}[e.id]
         if e.id in BUILTINS:
             return Builtin(e.id)
+        if mod is not None and e.id in mod.classes:
+            return ClassRef(mod.classes[e.id])      # a class of this very module wins over same-named classes elsewhere
         cs = self.repo.classes().get(e.id, [])
         if len(cs) == 1:
             return ClassRef(cs[0])
@@ -1019,7 +1021,11 @@ class Interp:
             v = getattr(base, attr, None)
             if v is None and not hasattr(base, attr):
                 raise PyRaise(f"AttributeError: {attr}", node)
-            return PyMethod(base, attr) if callable(v) else v
+            if callable(v):
+                pm = PyMethod(base, attr)
+                pm.interp = self       # compiled_pattern.sub(<function of the program>, text)
+                return pm
+            return v
         if hasattr(base, "interp_getattr"):
             return base.interp_getattr(attr)
         if isinstance(base, Opaque):
@@ -1709,6 +1715,19 @@ class PyMethod:
                 for x in args[0]:
                     out = out + SymBytes.of(x)
                 return out
+        if self.base is int and self.attr == "from_bytes" and args and hasattr(args[0], "unpack") and not isinstance(args[0], (bytes, bytearray)):
+            # int.from_bytes on symbolic bytes: the same word struct.unpack gives
+            data = args[0]
+            order = args[1] if len(args) > 1 else kwargs.get("byteorder", "big")
+            n = data.length() if hasattr(data, "length") else None
+            code = {1: "B", 2: "H", 4: "I"}.get(n if isinstance(n, int) else None)
+            if code is None or order not in ("big", "little"):
+                raise Undecided(f"int.from_bytes of {n!r} symbolic bytes, byteorder {order!r}")
+            return data.unpack((">" if order == "big" else "<") + (code.lower() if kwargs.get("signed") else code))[0]
+        if type(self.base).__name__ == "Pattern" and self.attr in ("sub", "subn") and args and not isinstance(args[0], (str, bytes)) and getattr(self, "interp", None) is not None:
+            # compiled_pattern.sub(callable, text): the replacement is a function of the interpreted program
+            repl_, it_ = args[0], self.interp
+            return getattr(self.base, self.attr)(lambda m_: it_.apply(repl_, [m_], {}), *args[1:], **kwargs)
         if type(self.base).__name__ == "Pattern" and args and hasattr(args[0], "cells"):
             from .symregex import sym_match
             if args[0].concrete() is None:
@@ -2127,6 +2146,20 @@ class BV:
     def _zip(self, o, fn):
         o = BV.lift(o)
         return BV([fn(a, b) for a, b in zip(self.bits, o.bits)])
+
+    def interp_getattr(self, attr):
+        if attr == "to_bytes":
+            def to_bytes(args, kwargs, me=self):
+                n = args[0] if args else kwargs.get("length", 1)
+                order = args[1] if len(args) > 1 else kwargs.get("byteorder", "big")
+                signed = kwargs.get("signed", False)
+                code = {1: "B", 2: "H", 4: "I"}.get(n)
+                if code is None or order not in ("big", "little"):
+                    raise Undecided(f"to_bytes({n!r}, {order!r}) of a symbolic word")
+                from .symbytes import SymBytes
+                return SymBytes.pack((">" if order == "big" else "<") + (code.lower() if signed else code), [me])
+            return Native(to_bytes, "to_bytes")
+        raise Undecided(f"attribute {attr} of a symbolic word")
 
     def __and__(self, o):
         return self._zip(o, Bit.and_)
